@@ -8,6 +8,7 @@ mkdir -p build evidence replays
 (cd native/dshim && CARGO_TARGET_DIR=../../build/dshim cargo build --release --offline 2>&1 | tail -2)
 if [ -d native/replayer ]; then
   (cd native/replayer && CARGO_TARGET_DIR=../../build/replayer cargo build --release --offline 2>&1 | tail -2)
+  (cd native/replayer && RUSTFLAGS="--cfg walrus_verif" CARGO_TARGET_DIR=../../build/replayer_hooks cargo build --release --offline 2>&1 | tail -2)
 fi
 python3-vt -c "import z3; print('z3', z3.get_version_string())"
 echo setup ok
